@@ -14,7 +14,7 @@ VERIF = os.path.dirname(HERE)
 sys.path.insert(0, HERE)
 import extract  # noqa: E402
 
-GEN = os.path.join(VERIF, 'gen')
+GEN = os.path.join(VERIF, 'gen', 'run-%d' % os.getpid())  # per-process scratch: concurrent checks never share generated files
 VERUS = os.environ.get('VERUS', 'verus')
 SEMANTIC = [
     ('postcondition', re.compile(r'postcondition not satisfied')),
@@ -390,6 +390,14 @@ def write_replay(pid, violations, units):
 
 
 def main(argv):
+    import shutil
+    try:
+        return main_(argv)
+    finally:
+        shutil.rmtree(GEN, ignore_errors=True)
+
+
+def main_(argv):
     import argparse
     ap = argparse.ArgumentParser()
     ap.add_argument('pid')
